@@ -1,7 +1,7 @@
 (* EquivPop.v -- see EquivElem.v: the body of `pop`, regenerated from src/lib.rs on every run, evaluates to
    Machine.pop (with the function-boundary semantics of EquivElem.v). *)
 From Coq Require Import ZArith List String Bool Lia.
-From MV Require Import Ast Eval Scalar Machine Equiv Prims EquivTac EquivElem.
+From MV Require Import Ast Eval Scalar Machine EquivDefs Prims EquivTac EquivElem.
 From MV.Gen Require Import AstGen.
 Import ListNotations.
 Open Scope string_scope.
